@@ -63,7 +63,9 @@ public:
    Counted& operator =( Counted&&) = delete;
 
 private:
-   /// Checks the currently open file if it can still be used, i.e. it is empty.
+   /// Checks the currently open file if it can still be used, i.e. it contains
+   /// less than the maximum number of entries. Entries that an existing file
+   /// contains already are counted.
    ///
    /// @return
    ///    \c true if the current log file can still be used, \c false if the log
